@@ -321,11 +321,40 @@ theorem sort_types_sorted (names : List Str) :
   split
   · exact short_pairwise _ _ ‹_›
   · exact (List.pairwise_mergeSort prioLe_trans prioLe_total names).imp
+      (by intro a b h; exact prio_le_of_key_le (by simpa [prioLe] using h))
+
+/-- … with `object`, the catch-all, after every other type that has no table entry
+(the sort key is `(priority, tp is object)`): the order of `bytes` and `object`
+no longer depends on the order in which they are handed in -/
+theorem sort_types_key_sorted (names : List Str) :
+    (sortTypes names).Pairwise (fun a b => typeKey a ≤ typeKey b) := by
+  rw [sortTypes_eq]
+  split
+  · exact short_pairwise _ _ ‹_›
+  · exact (List.pairwise_mergeSort prioLe_trans prioLe_total names).imp
       (by intro a b h; simpa [prioLe] using h)
 
-/-- … and stable: two candidates that are already in priority order keep their relative order -/
+/-- `bytes` before `object` whatever the incoming order -/
+theorem sort_types_bytes_object :
+    sortTypes [['o', 'b', 'j', 'e', 'c', 't'], ['b', 'y', 't', 'e', 's']]
+      = [['b', 'y', 't', 'e', 's'], ['o', 'b', 'j', 'e', 'c', 't']] ∧
+    sortTypes [['b', 'y', 't', 'e', 's'], ['o', 'b', 'j', 'e', 'c', 't']]
+      = [['b', 'y', 't', 'e', 's'], ['o', 'b', 'j', 'e', 'c', 't']] := by
+  have key : ∀ l : List Str, l.Perm [['b', 'y', 't', 'e', 's'], ['o', 'b', 'j', 'e', 'c', 't']] →
+      sortTypes l = [['b', 'y', 't', 'e', 's'], ['o', 'b', 'j', 'e', 'c', 't']] := by
+    intro l hl
+    have hp := (sort_types_perm l).trans hl
+    refine List.Perm.eq_of_pairwise (le := fun a b => typeKey a ≤ typeKey b) ?_
+      (sort_types_key_sorted l) (by decide) hp
+    intro a b ha hb h1 h2
+    have ha' := hp.subset ha
+    simp only [List.mem_cons, List.not_mem_nil, or_false] at ha' hb
+    rcases ha' with rfl | rfl <;> rcases hb with rfl | rfl <;> first | rfl | (revert h1 h2; decide)
+  exact ⟨key _ (List.Perm.swap _ _ _), key _ (List.Perm.refl _)⟩
+
+/-- … and stable: two candidates that are already in key order keep their relative order -/
 theorem sort_types_stable (names : List Str) (a b : Str)
-    (hab : typePriority a ≤ typePriority b) (h : [a, b].Sublist names) :
+    (hab : typeKey a ≤ typeKey b) (h : [a, b].Sublist names) :
     [a, b].Sublist (sortTypes names) := by
   rw [sortTypes_eq]
   split
